@@ -26,21 +26,21 @@ WriteFailing(ev) ==
         dangling == \E i \in DOMAIN g.al.cells : \E k \in DOMAIN g.al.cells[i].refs :
                         g.al.cells[i].refs[k].kind = "name"
         okerrs == IF dangling THEN {0, 4} ELSE {0}      \* 4 = MissingReference (a warning)
-    IN  (IF ev.werr = 0 /\ \A k \in DOMAIN ev.errs : ev.errs[k] \in okerrs THEN {} ELSE {"error_code"})
-        \cup (IF ev.fd = 0 THEN {} ELSE {"file_handle_leak"})
-        \cup (IF ~d.ok THEN {"strict_decoder_rejects_file"}
-              ELSE (IF d.tailok THEN {} ELSE {"garbage_after_ENDLIB"})
+    IN  (IF ev.werr = 0 /\ \A k \in DOMAIN ev.errs : ev.errs[k] \in okerrs THEN {} ELSE {<<"error_code">>})
+        \cup (IF ev.fd = 0 THEN {} ELSE {<<"file_handle_leak">>})
+        \cup (IF ~d.ok THEN {<<"strict_decoder_rejects_file">>}
+              ELSE (IF d.tailok THEN {} ELSE {<<"garbage_after_ENDLIB">>})
                    \cup {<<"file", x>> : x \in MFailing(Meaning(d.lib), N)}
                    \cup (IF /\ GdsWithinUlps(d.lib.meters, BytesToBits(u.prec), 1)
                             /\ GdsWithinUlps(d.lib.user, BytesToBits(u.ratio), 2)
-                         THEN {} ELSE {"units_record"})
+                         THEN {} ELSE {<<"units_record">>})
                    \cup (IF d.lib.time = ts12 /\ \A k \in DOMAIN d.lib.cells : d.lib.cells[k].time = ts12
-                         THEN {} ELSE {"timestamps"}))
+                         THEN {} ELSE {<<"timestamps">>}))
         \cup UNION {Tag3(k, LibFailing(ev.projs[k], N)
                            \cup (IF UnitsOK(ev.projs[k], u) THEN {} ELSE {"unit_precision"}))
                     : k \in DOMAIN ev.projs}
 
-Check(ev) == IF ev.e = "write" THEN WriteFailing(ev) ELSE {ev.e}
+Check(ev) == IF ev.e = "write" THEN WriteFailing(ev) ELSE {<<ev.e>>}
 TInit == l = 1
 TNext == /\ l <= Len(Log) /\ l' = l + 1
          /\ LET f == Check(Ev) IN IF f = {} THEN TRUE ELSE PrintT("REJECT " \o ToString(l) \o " " \o ToString(f))
